@@ -16,6 +16,11 @@ impl<T> VerifOptContext<T> for Option<T> {      // anyhow::Context on Option: So
 }
 // quick_protobuf::BytesReader: a cursor [pos, end) over the slice it is always used with (the slice is passed to every call)
 #[verifier::external_body] pub struct BytesReader { _p: u8 }
+// A2: what quick_protobuf decodes at position p of a byte string (uninterpreted functions of the input: determinism only)
+pub uninterp spec fn varint_at(b: Seq<u8>, p: int) -> u64;
+pub uninterp spec fn fixed64_at(b: Seq<u8>, p: int) -> u64;
+pub uninterp spec fn fixed32_at(b: Seq<u8>, p: int) -> u32;
+pub uninterp spec fn bytes_at(b: Seq<u8>, p: int) -> Seq<u8>;
 impl BytesReader {
     pub uninterp spec fn pos(&self) -> int;
     pub uninterp spec fn end(&self) -> int;
@@ -23,6 +28,9 @@ impl BytesReader {
     pub fn from_bytes(bytes: &[u8]) -> (r: BytesReader) ensures r.pos() == 0, r.end() == bytes@.len() { unimplemented!() }
     #[verifier::external_body]
     pub fn is_eof(&self) -> (r: bool) ensures r == (self.pos() >= self.end()) { unimplemented!() }
+    // number of bytes left (offered so that code which merely asks for it is decided rather than rejected)
+    #[verifier::external_body]
+    pub fn len(&self) -> (r: usize) ensures r as int == (if self.end() >= self.pos() { self.end() - self.pos() } else { 0 }) { unimplemented!() }
     // every successful read consumes at least one byte and stays inside the slice
     #[verifier::external_body]
     pub fn next_tag(&mut self, bytes: &[u8]) -> (r: Result<u32, QpError>)
@@ -30,18 +38,22 @@ impl BytesReader {
                 r.is_err() ==> final(self).pos() >= old(self).pos() { unimplemented!() }
     #[verifier::external_body]
     pub fn read_varint64(&mut self, bytes: &[u8]) -> (r: Result<u64, QpError>)
-        ensures final(self).end() == old(self).end(), r.is_ok() ==> old(self).pos() < final(self).pos() <= old(self).end() { unimplemented!() }
+        ensures final(self).end() == old(self).end(), r.is_ok() ==> old(self).pos() < final(self).pos() <= old(self).end(),
+                r matches Ok(v) ==> v == varint_at(bytes@, old(self).pos()) { unimplemented!() }
     #[verifier::external_body]
     pub fn read_fixed64(&mut self, bytes: &[u8]) -> (r: Result<u64, QpError>)
-        ensures final(self).end() == old(self).end(), r.is_ok() ==> old(self).pos() < final(self).pos() <= old(self).end() { unimplemented!() }
+        ensures final(self).end() == old(self).end(), r.is_ok() ==> old(self).pos() < final(self).pos() <= old(self).end(),
+                r matches Ok(v) ==> v == fixed64_at(bytes@, old(self).pos()) { unimplemented!() }
     #[verifier::external_body]
     pub fn read_fixed32(&mut self, bytes: &[u8]) -> (r: Result<u32, QpError>)
-        ensures final(self).end() == old(self).end(), r.is_ok() ==> old(self).pos() < final(self).pos() <= old(self).end() { unimplemented!() }
+        ensures final(self).end() == old(self).end(), r.is_ok() ==> old(self).pos() < final(self).pos() <= old(self).end(),
+                r matches Ok(v) ==> v == fixed32_at(bytes@, old(self).pos()) { unimplemented!() }
     // length-delimited value: a sub-slice strictly shorter than what was left (the length prefix takes at least one byte)
     #[verifier::external_body]
     pub fn read_bytes<'a>(&mut self, bytes: &'a [u8]) -> (r: Result<&'a [u8], QpError>)
         ensures final(self).end() == old(self).end(),
                 r matches Ok(s) ==> old(self).pos() < final(self).pos() <= old(self).end() && s@.len() < final(self).pos() - old(self).pos()
+                                    && s@ == bytes_at(bytes@, old(self).pos())
     { unimplemented!() }
 }
 // quick_protobuf::Writer over a Vec<u8> (R-type: `let mut v = vec![]; let mut w = Writer::new(&mut v); .. Ok(v)` becomes an owning writer)
@@ -233,23 +245,32 @@ def build(repo):
                ("Ok(v)", "Ok(w.into_vec())"),
                ("return Ok(self.0.read_bytes(self.1)?.into())", "return Ok(slice_to_vec(self.0.read_bytes(self.1)?))   /* R-std */")] + QP,
          spec="""
+    requires old(self).0.end() == old(self).1@.len(), 0 <= old(self).0.pos() <= old(self).0.end(),      // the cursor is a cursor over THIS slice (Reader::new)
     ensures final(self).0.end() == old(self).0.end(), final(self).1@ == old(self).1@,
             // a successful read consumes input and yields a value strictly shorter than what it consumed plus 10 (varint) -- for
             // length-delimited values: strictly shorter than what was consumed
             r.is_ok() ==> old(self).0.pos() < final(self).0.pos() <= old(self).0.end(),
             r matches Ok(v) ==> (wire == Wire::Len ==> v@.len() < final(self).0.pos() - old(self).0.pos()),
+            // "normalises": a scalar is handed on as the (minimal, A2) re-encoding of the VALUE that was decoded, never as the bytes that
+            // happened to be on the wire; a length-delimited value as its content
+            r matches Ok(v) ==> v@ == (match wire {
+                Wire::Varint => enc_varint(varint_at(old(self).1@, old(self).0.pos())),
+                Wire::I64 => enc_fixed64(fixed64_at(old(self).1@, old(self).0.pos())),
+                Wire::I32 => enc_fixed32(fixed32_at(old(self).1@, old(self).0.pos())),
+                Wire::Len => bytes_at(old(self).1@, old(self).0.pos()),
+            }),
 """)
     U.fn(F, RD + " :: fn read_field", wrap=RD, ret="r",
          header_subs=[("anyhow::Result<()>", "Result<(), AnyhowError>")],
          subs=[("Self::new(", "Reader::new("),
                ("self.0.read_bytes(self.1)?", "self.0.read_bytes(self.1).map_err(|verif_e| qp_into_anyhow(verif_e))?   /* R-try */")],
          loops={0: dict(prefix="while !r.0.is_eof()", inv="""
-            r.0.end() == r.1@.len(), r.0.pos() <= r.0.end(), field_wire != Wire::Len,
+            r.0.end() == r.1@.len(), 0 <= r.0.pos() <= r.0.end(), field_wire != Wire::Len,
             self.0.end() == old(self).0.end(), self.1@ == old(self).1@, old(self).0.pos() < self.0.pos() <= old(self).0.end(),
             out@.len() >= old(out)@.len(), forall|i: int| 0 <= i < old(out)@.len() ==> out@[i] == old(out)@[i],
 """, decreases="r.0.end() - r.0.pos()")},
          spec="""
-    requires old(self).0.pos() <= old(self).0.end(),
+    requires 0 <= old(self).0.pos() <= old(self).0.end(), old(self).0.end() == old(self).1@.len(),
     ensures final(self).0.end() == old(self).0.end(), final(self).1@ == old(self).1@,
             r.is_ok() ==> old(self).0.pos() < final(self).0.pos() <= old(self).0.end(),
             // values are only appended, and every appended length-delimited value is shorter than the input consumed for it
@@ -266,7 +287,7 @@ def build(repo):
                ("field.kind().into()", "Wire::from_kind(field.kind())   /* R-std: From::from through .into() */"),
                ("r.0.next_tag(r.1)?", "r.0.next_tag(r.1).map_err(|verif_e| qp_into_anyhow(verif_e))?   /* R-try */")],
          loops={0: dict(prefix="while !r.0.is_eof()", inv="""
-            r.0.end() == buf@.len(), 0 <= r.0.pos() <= r.0.end(), fields_ok(fields@, desc, buf@.len() as int),
+            r.0.end() == buf@.len(), r.1@ == buf@, 0 <= r.0.pos() <= r.0.end(), fields_ok(fields@, desc, buf@.len() as int),
 """, decreases="r.0.end() - r.0.pos()")},
          post_subs=[("Ok(fields)", "proof { assume(fields@ == spec_fields(buf@, desc) && fields.keys() == spec_keys(buf@, desc)); }   /* W-ghost: names the result */ Ok(fields)"),
                     ("r.read_field(", "let ghost verif_before = fields@; let ghost verif_pos = r.0.pos(); r.read_field("),
